@@ -763,6 +763,9 @@ func main() {
 	ev.write()
 	fmt.Printf("runs=%d nontrivial_distinct=%d violations=%d known=%d infra=%d det=%d/%d diverged wall=%.1fs\n",
 		len(outcomes), len(nt), len(bad), len(known), infraN, detDiverged, detRuns, time.Since(t0).Seconds())
+	if infraN > 0 {
+		fmt.Printf("infra-note: %d run(s) gave no verdict; first: %s\n", infraN, strings.ReplaceAll(head(infraMsg, 700), "\n", " | "))
+	}
 	if exit == 0 && (len(outcomes) == 0 || infraN*5 > len(outcomes)) {
 		fmt.Fprintf(os.Stderr, "INFRA: %d of %d runs failed for infrastructure reasons; first: %s\n", infraN, len(outcomes), head(infraMsg, 3000))
 		exit = 2
